@@ -1,3 +1,4 @@
+import Tv.Thm.C06Reg
 import Tv.Thm.C01
 import Tv.Lemmas.Local
 import Tv.Thm.C03
